@@ -279,7 +279,8 @@ def _edge_cases(tier):
 
 # ------------------------------------------------------------------ '+'
 
-POOL = [["ab", "b"], ["a"], ["bc", "cc", ""], ["cd"], ["dda", "e"], ["abc"], ["e", "e"], ["ba", "ab"]]
+POOL = [["ab", "b"], ["a"], ["bc", "cc", ""], ["cd"], ["dda", "e"], ["abc"], ["e", "e"], ["ba", "ab"],
+        ["f", "g", "h", "i"], ["ihg", "f", "a"], ["zz", "y", "x", "w", "v", "u"], ["uvwxyz"]]
 
 
 def run_add(case):
